@@ -6,10 +6,10 @@ import (
 	verif "github.com/uber/kraken/zzverif"
 )
 
-// Scenario of FINDINGS.md (kept apart from the passing harnesses, which leave
-// exactly this case out): a positional write of zero bytes at an offset beyond
-// the current end. An OS file is unchanged by pwrite(fd, "", 0, off); both
-// in-memory buffers grow to `off`.
+// Scenario of FINDINGS.md (fixed upstream in 1837d29, kept as a regression
+// check): a positional write of zero bytes at an offset beyond the current
+// end. An OS file is unchanged by pwrite(fd, "", 0, off); before the fix both
+// in-memory buffers grew to `off`.
 
 func verifFindingZeroLen(sut, ref verifBufW) {
 	n := verif.Len("content_len", 0, 2)
@@ -27,12 +27,7 @@ func verifFindingZeroLen(sut, ref verifBufW) {
 	verif.Assert("size-after-empty-write", sut.Size() == ref.Size())
 }
 
-// VerifFindingMemoryFileZeroLengthWritePastEnd fires on the current tree.
-func VerifFindingMemoryFileZeroLengthWritePastEnd() {
-	verifFindingZeroLen(verifNewMemoryFile(verif.Len("capacity", 0, 2)), verifRefFile(nil))
-}
-
-// VerifFindingBufferReadWriterZeroLengthWritePastEnd fires on the current tree.
-func VerifFindingBufferReadWriterZeroLengthWritePastEnd() {
+// VerifBufferReadWriterZeroLengthWritePastEnd: regression check of the fixed finding.
+func VerifBufferReadWriterZeroLengthWritePastEnd() {
 	verifFindingZeroLen(base.NewBufferReadWriter(uint64(verif.Len("capacity", 0, 2))), verifRefFile(nil))
 }
